@@ -469,8 +469,10 @@ def enc_items(nodes):
     return out
 
 
-def enc_cmd(i, which, mt, h, b, t, decode=True):
-    items = ["H"] + enc_items(h) + ["B"] + enc_items(b) + ["T"] + enc_items(t) + (["D"] if decode else [])
+def enc_cmd(i, which, mt, h, b, t, decode=True, replace=()):
+    """replace: [(tag, new value bytes)] applied to the decoded message before it is encoded and decoded again."""
+    items = ["H"] + enc_items(h) + ["B"] + enc_items(b) + ["T"] + enc_items(t) + (["D"] if decode else []) + \
+        ["R%d=%s" % (tg, v.hex() or "-") for tg, v in replace]
     return "enc %s %s %s %s" % (i, SCHEMAS[which], mt, " ".join(items))
 
 
